@@ -4,7 +4,7 @@
     reached from any top-level call or creation by any number of steps. *)
 From Coq Require Import List ZArith NArith Bool.
 From Kardia Require Import C10.U256 C10.EVM C10.ProofsArith C10.ProofsTables C10.ProofsInv C10.ProofsFrames
-  C10.ProofsStatic C10.ProofsGas C10.ProofsTerm C10.ProofsBal C10.ProofsMem C10.ProofsExamples C10.ToC09 Generated.C10Facts.
+  C10.ProofsStatic C10.ProofsGas C10.ProofsTerm C10.ProofsBal C10.ProofsMem C10.ProofsRet C10.ProofsExamples C10.ToC09 Generated.C10Facts.
 Import ListNotations.
 Local Open Scope Z_scope.
 
@@ -155,14 +155,104 @@ Theorem C10_balances_invariant : forall keccak blockhash origin n0, n0 <> 0 ->
 Proof. exact run_n_B. Qed.
 Print Assumptions C10_balances_invariant.
 
-(** return data of the identity precompile is a COPY of its input (EVM specification): the model
-    returns 0x11..11 on [identity_program]; the real KVM returns 0x22..22 (known finding
-    kvm-identity-returndata-aliased, see ProofsExamples.v) *)
+(** return data of the identity precompile is a COPY of its input (EVM specification; the real KVM
+    agrees since /repo commit 8287a54, before that RETURNDATA aliased the caller's memory — fixed
+    finding kvm-identity-returndata-aliased).  General form: a CALL-family instruction whose target is
+    address 4 opens no frame; the caller continues with flag 1 and RETURNDATA = the bytes its memory
+    held in the input range at that moment, or with flag 0 and empty RETURNDATA (not enough gas,
+    depth, balance) ... *)
+Theorem C10_identity_call_returns_input : forall keccak (blockhash : Z -> Z) e k f w rest cg,
+    addr_of_word (sk (f_stack f) 1) = 4 ->
+    exists f' w', exec keccak e (ICallOp k) f w rest cg = mk_config (f' :: rest) w' Running /\
+                  ((hd 0 (f_stack f') = 1 /\ f_ret f' = call_input k f) \/
+                   (hd 0 (f_stack f') = 0 /\ f_ret f' = [])).
+Proof. exact exec_identity_ret. Qed.
+Print Assumptions C10_identity_call_returns_input.
+
+(** ... it succeeds exactly when the gas handed over covers 15 + 3 per input word (constants of /repo) ... *)
+Theorem C10_identity_gas : forall w_ok w_snap args gas,
+    run_precompile 4 w_ok w_snap args gas =
+    if gas <? identity_cost args then SImmediate (OErr EOog) 0 w_snap [] else SImmediate OOk (gas - identity_cost args) w_ok args.
+Proof. exact run_identity. Qed.
+Print Assumptions C10_identity_gas.
+
+(** ... and RETURNDATA belongs to the frame: over any number of steps of the same frame that execute no
+    CALL-family / CREATE / CREATE2 instruction (memory writes, copies, storage, jumps, ...) it does not
+    change — in particular it cannot follow later writes to the memory it was read from *)
+Theorem C10_returndata_stable : forall keccak blockhash e c c', quiet keccak blockhash e c c' ->
+    forall f rest, c_frames c = f :: rest ->
+    exists f' rest', c_frames c' = f' :: rest' /\ length rest' = length rest /\ f_ret f' = f_ret f.
+Proof. exact returndata_stable_run. Qed.
+Print Assumptions C10_returndata_stable.
+
+(** the concrete run: the model returns 0x11..11 on [identity_program] (see ProofsExamples.v) *)
 Theorem C10_identity_returndata_is_a_copy :
   exists g, c_status (run_call (fun _ => 0) (fun _ => 0) ex_env ex_world 49374 [] 100000 0)
             = Final OOk (word_bytes 7719472615821079694904732333912527190217998977709370935963838933860875309329) g.
 Proof. exact identity_returndata_is_a_copy. Qed.
 Print Assumptions C10_identity_returndata_is_a_copy.
+
+(** RETURNDATACOPY(dst, off, len) with non-negative operands: if off + len fits 64 bits and the buffer,
+    exactly ret[off, off+len) is written (no padding); otherwise — including every off + len that
+    would wrap around in 64 bits — the frame fails with "return data out of bounds" (and by
+    C10_failed_frame_no_change leaves no state change) *)
+Theorem C10_returndatacopy_spec : forall keccak (blockhash : Z -> Z) e f w rest cg,
+    0 <= sk (f_stack f) 1 -> 0 <= sk (f_stack f) 2 ->
+    (rdc_ok f ->
+     exec keccak e (ICopy SrcReturndata) f w rest cg =
+     next (set_stack (set_mem f (mem_write (f_mem f) (sk (f_stack f) 0)
+                                           (firstn (Z.to_nat (sk (f_stack f) 2)) (skipn (Z.to_nat (sk (f_stack f) 1)) (f_ret f))))
+                              (f_mcost f))
+                     (skipn 3 (f_stack f))) w rest) /\
+    (~ rdc_ok f -> exec keccak e (ICopy SrcReturndata) f w rest cg = fail ERetOob f w rest).
+Proof. exact returndatacopy_spec. Qed.
+Print Assumptions C10_returndatacopy_spec.
+
+(** jump destinations: [valid_jumpdest] is the code-bitmap analysis of kvm/contract.go — a destination is
+    valid iff it lies in the code, the linear sweep over PUSH data marks it as an opcode position and the
+    byte there is JUMPDEST (0x5b) ... *)
+Theorem C10_valid_jumpdest_is_bitmap : forall code d, 0 <= d ->
+    valid_jumpdest code d = true <->
+    (d < Z.of_nat (length code) /\ nth (Z.to_nat d) (sweep code O) false = true /\ nth (Z.to_nat d) code 0 = 91).
+Proof. exact valid_jumpdest_spec. Qed.
+Print Assumptions C10_valid_jumpdest_is_bitmap.
+
+(** ... hence no byte of the data of a PUSH that sits at an opcode position is a valid destination,
+    whatever its value *)
+Theorem C10_no_jump_into_push_data : forall code p k,
+    nth p (sweep code O) false = true -> (1 <= k <= push_len (nth p code 0%Z))%nat ->
+    valid_jumpdest code (Z.of_nat (p + k)) = false.
+Proof. exact no_jump_into_push_data. Qed.
+Print Assumptions C10_no_jump_into_push_data.
+
+(** BLOCKHASH(n) is the embedder's hash only for n in [NUMBER-256, NUMBER) and n < 2^64; zero otherwise
+    (the low 64 bits of a larger n are never looked at) *)
+Theorem C10_blockhash_window : forall blockhash e n, 0 <= n ->
+    (op_blockhash blockhash e n = blockhash n /\ n < U64 /\ e_number e - 256 <= n < e_number e) \/
+    (op_blockhash blockhash e n = 0 /\ (U64 <= n \/ n < e_number e - 256 \/ e_number e <= n)).
+Proof. exact blockhash_window. Qed.
+Print Assumptions C10_blockhash_window.
+
+(** the depth limit is enforced by EVERY frame-creating operation: with more than 1024 frames below, a
+    message call of any kind and a creation are refused at once, hand all their gas back and change nothing *)
+Theorem C10_depth_limit_call : forall k d w ps pc pv pst t args g v ro rs,
+    call_create_depth < d -> start_call k d w ps pc pv pst t args g v ro rs = SImmediate (OErr EDepth) g w [].
+Proof. exact depth_limit_call. Qed.
+Print Assumptions C10_depth_limit_call.
+Theorem C10_depth_limit_create : forall d w ps pst a init g v,
+    call_create_depth < d -> start_create d w ps pst a init g v = SImmediate (OErr EDepth) g w [].
+Proof. exact depth_limit_create. Qed.
+Print Assumptions C10_depth_limit_create.
+
+(** a creation (depth and balance permitting) at an address that already has a nonce or code fails, burns
+    all the gas handed over and changes only the creator's nonce; an address with just a balance is free *)
+Theorem C10_create_collision : forall d w ps pst a init g v,
+    d <= call_create_depth -> 0 <= v <= balance w ps ->
+    let w1 := set_nonce w ps (nonce w ps + 1) in
+    nonce w1 a <> 0 \/ code_of w1 a <> [] ->
+    start_create d w ps pst a init g v = SImmediate (OErr ECollision) 0 w1 [].
+Proof. exact create_collision. Qed.
+Print Assumptions C10_create_collision.
 
 (** memory is word-granular: the memory of every frame of every reachable configuration is a whole
     number of 32-byte words (every instruction write and every callee return write lands inside the
